@@ -10,6 +10,7 @@ anything into the checkout: `parse_file` only looks at `stream.name`.
 """
 import datetime
 import io
+import json
 import os
 import shutil
 import signal
@@ -85,6 +86,8 @@ class _NamedStringIO(io.StringIO):
     name = None
 
 
+CORE_MODULES = ("data_gen_exceptions", "data_generator_runtime_object_model", "parse_recipe_yaml", "data_generator")
+
 STATIC_STAGE_FUNCS = (
     ("parse_recipe", "parse"),
     ("merge_options", "options"),
@@ -98,8 +101,10 @@ def _site_of(e):
       * RecursionError: the innermost frame is wherever the stack happened to run out; the key is the
         outermost Snowfakery function that occurs at least three times in the traceback (the cycle);
       * an exception that passes through `VariableDefinition.evaluate` (a `var` value: the one construct whose
-        evaluation is wrapped by no handler at all) is keyed by that frame, whatever plugin or library function
-        raised it.
+        evaluation is wrapped by no handler at all) and is raised in plugin / library-facing code (a standard
+        plugin, the fake-data layer, a template function, `evaluate_function`, `look_for_number`) is keyed by that
+        frame, whatever function raised it; an exception raised by the core itself (object model, error
+        reporting, parser: CORE_MODULES) keeps its own site even under a `var`.
     stage: parse | options | refs (the passes that run before the interpreter starts) | run."""
     tb = e.__traceback__
     inner = None
@@ -128,7 +133,7 @@ def _site_of(e):
             if counts[f] >= 3:
                 inner = f
                 break
-    elif through_var:
+    elif through_var and inner.split(".")[0] not in CORE_MODULES:
         return "*@data_generator_runtime_object_model.VariableDefinition.evaluate", stage
     return f"{type(e).__name__}@{inner}", stage
 
@@ -199,6 +204,8 @@ def run_case(case):
             res["site"], res["stage"] = _site_of(e)
             if isinstance(e, exc.DataGenError):
                 res["has_line"] = bool(e.line_num)
+                res["line"] = e.line_num
+                res["file"] = e.filename
                 res["has_message"] = bool(str(getattr(e, "message", "") or "").strip())
             del e
     finally:
@@ -274,6 +281,13 @@ GENERATED_BASES = {
     "gen/foreach": "- plugin: snowfakery.standard_plugins.Counters\n- object: A\n  count: 2\n  fields:\n    n:\n      Counters.NumberCounter:\n        start: 3\n    f:\n      fake: first_name\n    d: 2021-02-03\n    t: true\n    u: null\n    w: 1.5\n",
     "gen/update_key": "- object: A\n  update_key: name\n  fields:\n    name: x\n- var: w\n  value:\n    - object: H\n      fields:\n        z: 1\n",
 }
+GENERATED_BASES.update({
+    # every scalar position a formula can stand in: option default, top-level var, count (plain and formula), field,
+    # positional and keyword arguments of a function, nested template field, friend var, friend count
+    "gen/positions": "- option: o\n  default: d\n- var: tv\n  value: t\n- object: A\n  count: '2'\n  nickname: n\n  fields:\n    f: x\n    g:\n      random_choice:\n        - a\n        - b\n    h:\n      random_number:\n        min: 1\n        max: ${{3}}\n    i:\n      if:\n        - choice:\n            when: ${{1 > 2}}\n            pick: p\n        - choice:\n            pick: q\n    k:\n      - object: N\n        fields:\n          nf: z\n  friends:\n    - var: fv\n      value: y\n    - object: B\n      count: ${{1 + 1}}\n      fields:\n        bf: ${{fv}} ${{tv}} ${{o}}\n",
+    "gen/positions-v3": "- snowfakery_version: 3\n- var: tv\n  value: ${{1 + 1}}\n- object: A\n  count: ${{tv}}\n  fields:\n    f: ${{child_index}}\n  friends:\n    - var: fv\n      value: ${{tv * 2}}\n    - object: B\n      fields:\n        bf: ${{fv}}\n",
+})
+
 GENERATED_FILES = {
     "gen/include": (
         "- include_file: inc.yml\n- object: A\n  include: im\n  fields:\n    x: ${{iv}}\n",
@@ -500,6 +514,70 @@ def random_statement(rng):
         except TypeError:
             pass
     return d
+
+
+# template strings that do not compile (Jinja TemplateSyntaxError), in every syntax Snowfakery accepts, with and
+# without lone braces (a lone `{` / `}` is what breaks a `str.format` over a message that embeds the template)
+BROKEN_TEMPLATES = [
+    "${% if %}", "${% for x in %}", "${{ {'a': 1 }}", "${{ 1 + }}", "${{ foo( }}", "${{ a } }}", "${{ }", "${%", "${{ x",
+    "a { b ${{ 1 + }}", "${% endif %} }", "${{ '{0}' + }}", "${{ {} + }}",
+    "<< 1 + >>", "<< { >>", "<% if %>", "<% for x in %> {",
+]
+# templates that compile but fail when rendered
+FAILING_TEMPLATES = ["${{ 1 / 0 }}", "${{ nosuch.attr }}", "${{ {'a': 1}['b'] }}", "${{ '{' + 1 }}", "<< 1 / 0 >>"]
+
+
+def scalar_value_positions(doc, path=()):
+    """Paths of the scalar nodes in value position (not keys)."""
+    if isinstance(doc, list):
+        for i, x in enumerate(doc):
+            yield from scalar_value_positions(x, path + (("i", i),))
+    elif isinstance(doc, dict):
+        for k, v in doc.items():
+            yield from scalar_value_positions(v, path + (("k", k),))
+    else:
+        yield path
+
+
+def _indent(text, n):
+    return "\n".join((" " * n + l) if l else l for l in text.split("\n"))
+
+
+# position probes: a tiny recipe per scalar position in which a formula is evaluated first thing;
+# {T} is replaced by the YAML scalar of the template.  strict = the error must sit on the template's own line.
+PROBE_POSITIONS = [
+    ("var", True, "- var: v\n  value: {T}\n- object: A\n"),
+    ("count", True, "- object: A\n  count: {T}\n"),
+    ("field", True, "- object: A\n  fields:\n    x: {T}\n"),
+    ("friend-var", True, "- object: A\n  friends:\n    - var: v\n      value: {T}\n    - object: B\n"),
+    ("friend-count", True, "- object: A\n  friends:\n    - object: B\n      count: {T}\n"),
+    ("nested-field", True, "- object: A\n  fields:\n    c:\n      - object: B\n        fields:\n          y: {T}\n"),
+    ("nested-count", True, "- object: A\n  fields:\n    c:\n      - object: B\n        count: {T}\n"),
+    ("var-after-rows", True, "- object: Z\n- var: v\n  value: {T}\n"),
+    ("arg-kw", False, "- object: A\n  fields:\n    x:\n      random_number:\n        min: 1\n        max: {T}\n"),
+    ("arg-pos", False, "- object: A\n  fields:\n    x:\n      random_choice:\n        - {T}\n"),
+    ("arg-scalar", False, "- object: A\n  fields:\n    x:\n      reference: {T}\n"),
+    ("var-arg", False, "- var: v\n  value:\n    random_choice:\n      - {T}\n- object: A\n"),
+    ("count-arg", False, "- object: A\n  count:\n    random_number:\n      min: {T}\n      max: 3\n"),
+    ("if-when", False, "- object: A\n  fields:\n    x:\n      if:\n        - choice:\n            when: {T}\n            pick: a\n        - choice:\n            pick: b\n"),
+]
+
+
+def probe_cases():
+    """[case] with "probe": {"position", "strict", "line", "template"}"""
+    out = []
+    for version in (2, 3):
+        for t in BROKEN_TEMPLATES:
+            if version == 3 and not t.lstrip("a { b").startswith("$") and "${" not in t:
+                continue  # `<< >>` / `<% %>` are plain text in the version-3 dialect
+            scalar = json.dumps(t)  # a JSON string is a YAML double-quoted scalar
+            for pos, strict, body in PROBE_POSITIONS:
+                text = f"- snowfakery_version: {version}\n" + body.replace("{T}", scalar)
+                line = 1 + [i for i, l in enumerate(text.split("\n")) if scalar in l][0]
+                out.append({"text": text, "name": None, "files": None, "kind": "probe",
+                            "origin": f"probe/{pos}/v{version} <- {t}",
+                            "probe": {"position": pos, "strict": strict, "line": line, "template": t}})
+    return out
 
 
 RAW_TEXTS = [
